@@ -34,7 +34,7 @@ func (c10) Assumptions() []string {
 	}
 }
 func (c10) Required(tier string) []string {
-	req := []string{"H-hostile", "H-error", "H-reenter", "B-scribble", "B-resize", "D-dirty", "hostile-offset-out-of-range-on-consumed-member", "doc-toodeep", "doc-megatoken", "doc-truncated", "doc-random"}
+	req := []string{"H-hostile", "H-error", "H-reenter", "B-scribble", "B-resize", "D-dirty", "hostile-offset-out-of-range-on-consumed-member", "doc-toodeep", "doc-megatoken", "doc-truncated", "doc-random", "doc-cut-off-part-in-spare-capacity"}
 	return req
 }
 
@@ -78,10 +78,11 @@ func genHostileDoc(r *Rand, tier string) Doc {
 		}
 	case 3: // truncation of a small document
 		b := genTreeBytes(r, 120)
+		cut := b
 		if len(b) > 0 {
-			b = b[:r.Intn(len(b)+1)]
+			cut = b[:r.Intn(len(b)+1)]
 		}
-		return docOf(b, "truncated")
+		return docCut(r, b, cut, "truncated")
 	case 4: // random bytes, biased to structural ones
 		n := r.Range(0, 40)
 		b := make([]byte, n)
@@ -194,6 +195,9 @@ func (c10) Exec(sc *Scenario, st *Stats) *Violation {
 			st.probe("doc-truncated")
 		case d.Class == "random":
 			st.probe("doc-random")
+		}
+		if len(d.Tail) > 0 {
+			st.probe("doc-cut-off-part-in-spare-capacity")
 		}
 		x.tape = NewTape(op.Tape)
 		x.buf = nil
